@@ -219,6 +219,10 @@ func checkLen(c lenCase) error {
 	if blanked {
 		classes = append(classes, "empty-names")
 		for _, s := range c.Blank {
+			if gatewayAddrSlot(&m, s) {
+				classes = append(classes, "empty:gateway-address")
+				continue
+			}
 			classes = append(classes, [...]string{"empty:rdata-zero-value", "empty:owner", "empty:rdata-name", "empty:question-name"}[blankClass(s)])
 		}
 		if exact {
